@@ -17,7 +17,7 @@ ASSUMPTIONS = ["multi-qubit gates are declared on ascending qubit tuples (CNOT e
                "gate semantics themselves are pinned by C02/C03/C11; the composite is also checked against the oracle's own composition"]
 REQUIRED_SUBS = ["fwd.CliffordCircuit.built.none", "fwd.CliffordCircuit.*.layers", "fwd.CliffordCircuit.*.circuit",
                  "fwd.CliffordCircuit.copy.*", "fwd.CliffordCircuit.composed.*", "fwd.Circuit.built.*", "trace.order", "locality",
-                 "ref.oracle"]
+                 "ref.oracle", "live.forward", "live.order"]
 REQUIRED_CALLS = ["CliffordCircuit.take", "CliffordLayer.take"]
 
 
@@ -29,6 +29,9 @@ def shards(tier):
     ]
     for k in range(4 if q else 10):
         out.append({"name": "prog.np.jit.%d" % k, "mode": "jit", "backend": "np", "fn": "progs", "n": 60 if q else 3000})
+    out.append({"name": "live.np.jit", "mode": "jit", "backend": "np", "fn": "live", "n": 120 if q else 6000})
+    out.append({"name": "live.np.interp", "mode": "interp", "backend": "np", "fn": "live", "n": 40 if q else 1200})
+    out.append({"name": "live.torch", "mode": "jit", "backend": "torch", "fn": "live", "n": 25 if q else 800})
     return out
 
 
@@ -40,7 +43,7 @@ def run(shard, rec, B):
     hk.wrap(C.CliffordLayer, "take")
     if hasattr(C, "Circuit"):
         hk.wrap(C.Circuit, "take")
-    run_progs(shard, rec, B)
+    globals()["run_" + shard["fn"]](shard, rec, B)
 
 
 def run_progs(shard, rec, B):
@@ -110,3 +113,69 @@ def run_progs(shard, rec, B):
                         ok, _ = rec.attempt(sub + ".again", desc, lambda: circ.forward(obj))
                         if ok:
                             rec.check("fwd.again", CC.same(CC.read(B, item[0], obj), ref), dict(desc, cls=cls, variant=variant, comp=comp), nt)
+
+
+def run_live(shard, rec, B):
+    """ONE circuit object grown in stages: gates are taken, the circuit is compiled (layers or whole), run, grown again,
+    recompiled (the documented requirement after a change), run again, copied, run again... every stage is compared with
+    the oracle's composite of all gates taken so far. Stale compiled maps / caches must not survive a recompilation."""
+    rng = gen.rng_for(rec)
+    classes = ["CliffordCircuit"] + (["Circuit"] if hasattr(B.circuit, "Circuit") else [])
+    named = B.name == "np"
+    for t in range(shard["n"]):
+        N = int(rng.integers(2, 7)) if B.name == "np" else int(rng.integers(2, 5))
+        cls = classes[t % len(classes)]
+        circ = CC.new_circuit(B, cls, N)
+        prog, inserted = [], []
+        hist = []
+        compiled = None
+        for stage in range(int(rng.integers(2, 6))):
+            for _ in range(int(rng.integers(1, 5))):
+                s = PR.rand_spec(rng, N, named=named)
+                if rng.integers(3) == 0:   # a wide gate, so that later narrow gates can sit strictly inside its support
+                    qs = gen.rand_subset(rng, N, min(N, int(rng.integers(3, 5))))
+                    s = {"kind": "fmap", "mg": None, "mp": None, "qubits": qs}
+                    s["mg"], s["mp"] = O.random_map(rng, len(qs))
+                g = PR.make_gate(B, s, N)
+                ok, _ = rec.attempt("live.take", PR.describe(s), lambda: circ.take(g))
+                if not ok:
+                    break
+                prog.append(s)
+                inserted.append(g)
+                hist.append(["take", PR.describe(s)["kind"], s["qubits"]])
+            action = int(rng.integers(4))
+            if action == 1 or (compiled == "circuit" and action != 2):
+                ok, _ = rec.attempt("live.compile", hist[-6:], (lambda: circ.compile(N)) if cls == "CliffordCircuit" else (lambda: circ.compile()))
+                compiled = "circuit"
+                hist.append(["compile"])
+            elif action == 2 or compiled == "layers":
+                for layer in circ.layers_forward():
+                    layer.compile(N)
+                if compiled == "circuit":   # whole-circuit maps are stale after growth: recompile them as documented
+                    (circ.compile(N) if cls == "CliffordCircuit" else circ.compile())
+                else:
+                    compiled = "layers"
+                hist.append(["compile layers"])
+            if action == 3 and hasattr(circ, "copy") and B.name == "np":
+                circ2 = circ.copy()
+                hist.append(["copy"])
+                run_c = circ2
+            else:
+                run_c = circ
+            desc = {"N": N, "cls": cls, "program": [PR.describe(x) for x in prog][-12:], "history": hist[-10:], "stage": stage}
+            if run_c is circ:
+                bad, pos = PR.check_layering(circ, inserted)
+                rec.check("live.order", not bad, desc, len(prog) > 2, observed=bad[:4])
+            om = PR.program_map(B, prog, N)
+            for item in CC.inputs(B, N, rng, kinds=("list", "state")):
+                obj = CC.clone_input(B, item)
+                ok, _ = rec.attempt("live.forward", desc, lambda: run_c.forward(obj))
+                if ok:
+                    got = CC.read(B, item[0], obj)
+                    eg, ep = O.map_image_list(om[0], om[1], item[2], item[3])
+                    rec.check("live.forward", CC.same(got, (eg, ep, item[4])), dict(desc, kind=item[0]), len(prog) > 1,
+                              expected=CC.show_rows((eg, ep, item[4])), observed=CC.show_rows(got))
+                    ok, _ = rec.attempt("live.backward", desc, lambda: run_c.backward(obj))
+                    if ok:
+                        back = CC.read(B, item[0], obj)
+                        rec.check("live.backward", CC.same(back, (item[2], item[3], item[4])), dict(desc, kind=item[0]), len(prog) > 1)
